@@ -1481,5 +1481,11 @@ func (s *keysorter) Swap(i, j int) {
 
 // Swap is part of sort.Interface.
 func (s *keysorter) Less(i, j int) bool {
-	return s.hashes[s.index[i]] < s.hashes[s.index[j]]
+	hi, hj := s.hashes[s.index[i]], s.hashes[s.index[j]]
+	if hi != hj {
+		return hi < hj
+	}
+	// Distinct keys may have equal hashes; order them by printed form so that the
+	// result does not depend on the order in which the keys were supplied.
+	return s.keys[s.index[i]].String() < s.keys[s.index[j]].String()
 }
